@@ -197,7 +197,7 @@ def run(ctx):
       for (fname, txt, needle, reason) in C11.PAIR_ALLOW:
         if fname == fi.name and (txt is None or norm_text(st) == txt) and any(needle in t for t in tests):
           ok, why = True, 'allow-listed: ' + reason
-    ctx.ob('PAIR/end-total', fi, st, ok, why)
+    ctx.ob('PAIR/end-total', fi, st, ok, why, definite=(not ok and op == 'store' and C11._no_total_near(fi, st, totals)))
 
 
 def rank_in_sort_key(ctx, fi):
